@@ -34,26 +34,26 @@ type Job struct {
 
 // Result is what a worker reports for a job.
 type Result struct {
-	ID       int            `json:"id"`
-	Prop     string         `json:"prop"`
-	Profile  string         `json:"profile,omitempty"`
-	Seed     int64          `json:"seed"`
-	Hash     string         `json:"hash"`
-	Canon    string         `json:"canon"`
-	Viol     *Violation     `json:"viol,omitempty"`
-	Trouble  string         `json:"trouble,omitempty"`
-	Known    string         `json:"known,omitempty"` // signature of a known finding that was hit (scenario-classified)
-	Stats    Stats          `json:"stats"`
-	Tape     map[string]int `json:"tape"`
-	TapeLen  int            `json:"tape_len"`
-	Log      []string       `json:"log,omitempty"`
-	NonTriv  bool           `json:"nontriv"`
-	States   []string       `json:"states,omitempty"`
-	Trans    []string       `json:"trans,omitempty"`
-	Shape    string         `json:"shape,omitempty"`
-	WallUs   int64          `json:"wall_us"`
-	SigHits  map[string]int `json:"sig_hits,omitempty"`
-	Desc     string         `json:"desc,omitempty"` // one-line description of the generated case
+	ID      int            `json:"id"`
+	Prop    string         `json:"prop"`
+	Profile string         `json:"profile,omitempty"`
+	Seed    int64          `json:"seed"`
+	Hash    string         `json:"hash"`
+	Canon   string         `json:"canon"`
+	Viol    *Violation     `json:"viol,omitempty"`
+	Trouble string         `json:"trouble,omitempty"`
+	Known   string         `json:"known,omitempty"` // signature of a known finding that was hit (scenario-classified)
+	Stats   Stats          `json:"stats"`
+	Tape    map[string]int `json:"tape"`
+	TapeLen int            `json:"tape_len"`
+	Log     []string       `json:"log,omitempty"`
+	NonTriv bool           `json:"nontriv"`
+	States  []string       `json:"states,omitempty"`
+	Trans   []string       `json:"trans,omitempty"`
+	Shape   string         `json:"shape,omitempty"`
+	WallUs  int64          `json:"wall_us"`
+	SigHits map[string]int `json:"sig_hits,omitempty"`
+	Desc    string         `json:"desc,omitempty"` // one-line description of the generated case
 }
 
 // Scenario runs one property scenario on a run.
